@@ -157,6 +157,8 @@ def doc_eval(t, env, fl_: Flags):
             inexact = ia or name in TRANSC
             if math.isfinite(float(v)) and abs(float(v)) > 1e150:
                 fl_.big = True
+            if math.isinf(float(v)) and math.isfinite(af) and name in ("exp", "sinh", "cosh"):
+                fl_.big = True          # float overflow; the model has no overflow
             return v, inexact
         a, ia = doc_eval(t[1], env, fl_)
         b, ib = doc_eval(t[2], env, fl_)
@@ -184,8 +186,11 @@ def doc_eval(t, env, fl_: Flags):
                     fl_.fragile = name
             if name == "atan2" and ((ia and abs(af) < TOL) or (ib and abs(bf) < TOL)):
                 fl_.fragile = name
-        if ine and name in ("^", "**", "pow") and ia and abs(abs(af) - 1) < TOL and math.isinf(bf):
+        if name in ("^", "**", "pow") and ia and abs(abs(af) - 1) < TOL and not math.isfinite(bf):
             fl_.fragile = name
+        if math.isinf(float(v)) and math.isfinite(af) and math.isfinite(bf) and (
+                name in ("+", "-", "*") or (name in ("^", "**", "pow") and af != 0)):
+            fl_.big = True              # float overflow; the model has no overflow
         inexact = ine or name in TRANSC
         if not inexact and name in ("+", "-", "*", "/") and fin and math.isfinite(float(v)):
             fa, fb = Fr(af), Fr(bf)
